@@ -25,8 +25,10 @@ Surfs == << Card(1, "so", <<3>>), Card(2, "so", <<5>>),
 
 Tr(o, m) == [o |-> o, m |-> m]
 IdM == <<1,0,0, 0,1,0, 0,0,1>>
+(* -1 and -2 have the same hash in CPython: two placements that differ only there must stay two placements *)
 TrSet == IF Lvl = 1
-         THEN { Tr(<<1,0,0>>, IdM), Tr(<<0,1,-1>>, <<0,1,0, -1,0,0, 0,0,1>>), Tr(<<0,0,1>>, <<-1,0,0, 0,1,0, 0,0,-1>>) }
+         THEN { Tr(<<1,0,0>>, IdM), Tr(<<0,1,-1>>, <<0,1,0, -1,0,0, 0,0,1>>), Tr(<<0,0,1>>, <<-1,0,0, 0,1,0, 0,0,-1>>),
+                Tr(<<-1,0,0>>, IdM), Tr(<<-2,0,0>>, IdM) }
          ELSE { Tr(<<1,0,0>>, IdM), Tr(<<0,-1,1>>, IdM), Tr(<<0,1,-1>>, <<0,1,0, -1,0,0, 0,0,1>>),
                 Tr(<<0,0,1>>, <<-1,0,0, 0,1,0, 0,0,-1>>), Tr(<<1,0,1>>, <<0,1,0, 0,0,1, 1,0,0>>),
                 Tr(<<0,0,0>>, <<0,0,-1, 0,1,0, 1,0,0>>) }
